@@ -51,6 +51,18 @@ func (x *Run) intrinsic(fr *Frame, st *State, fn *ssa.Function, args []Val, site
 		return "anon"
 	}
 	cf := x.contractFrame(fr)
+	if cf != nil && cf.mode == ModeContractUse {
+		// at a call site the callee's internal call trace is not available: trace
+		// queries yield unknown values (the clauses that use them give callers
+		// nothing), and the caller's own trace must not be disturbed
+		switch name {
+		case "ResetEvents":
+			return single(st, unit), true
+		case "Called", "CalledWith", "CalledBefore", "CallCount", "Sent", "SentOn", "ClosedEv", "Recovered", "CalledInIter", "CalledWithInIter",
+			"RetInt", "RetErr", "RetBool", "RetStr", "Ret", "NthArg", "NthRet", "NetDelta":
+			return single(st, x.freshVal(st, "trace", fn.Signature.Results().At(0).Type())), true
+		}
+	}
 	switch name {
 	case "Requires":
 		if cf != nil && cf.mode == ModeContractUse {
@@ -96,18 +108,27 @@ func (x *Run) intrinsic(fr *Frame, st *State, fn *ssa.Function, args []Val, site
 		}
 		return single(st, v), true
 	case "Held":
+		if args[0].Inner != nil {
+			args[0] = *args[0].Inner
+		}
 		key := x.lockKey(x.addrOf(args[0]))
 		if st.held[key] == 1 {
 			return single(st, Val{T: "true", S: SBool}), true
 		}
 		return single(st, Val{T: "false", S: SBool}), true
 	case "HeldR":
+		if args[0].Inner != nil {
+			args[0] = *args[0].Inner
+		}
 		key := x.lockKey(x.addrOf(args[0]))
 		if st.held[key] != 0 {
 			return single(st, Val{T: "true", S: SBool}), true
 		}
 		return single(st, Val{T: "false", S: SBool}), true
 	case "AssumeHeld":
+		if args[0].Inner != nil {
+			args[0] = *args[0].Inner
+		}
 		key := x.lockKey(x.addrOf(args[0]))
 		st.held[key] = 1
 		return single(st, unit), true
@@ -120,6 +141,8 @@ func (x *Run) intrinsic(fr *Frame, st *State, fn *ssa.Function, args []Val, site
 	case "Sent":
 		// Sent(ch, v): a send of v on ch happened on this path
 		return single(st, Val{T: x.eventMatch(st, "send", args), S: SBool}), true
+	case "SameObject":
+		return single(st, Val{T: eq(args[0].T, args[1].T), S: SBool}), true
 	case "SentOn":
 		return single(st, Val{T: x.eventMatch(st, "send", args[:1]), S: SBool}), true
 	case "ClosedEv":
